@@ -184,5 +184,172 @@ Proof.
                            cbn [u_now set_u_mtx set_u_sw set_u_rw set_u_slot set_u_seq set_u_taken set_u_lost set_u_w set_u_scv set_u_rcv]);
                    try discriminate; auto;
                    intros _; cbn in Ht; destruct Ht as [_ Ht]; auto ].
+  all: destruct b; [|discriminate]; apply UT_finish; [ut|]; intros _; cbn; destruct Ht as [_ Ht]; apply Ht; reflexivity.
 Qed.
 
+Lemma UT_utimer s t s' : UT s -> utimer s t = Some s' -> UT s'.
+Proof.
+  intros [A B] H. unfold utimer in H. destruct (u_w s t) eqn:Ew; try discriminate.
+  destruct (u_dl s t <=? u_now s) eqn:El; [|discriminate]. inversion H; subst; clear H.
+  constructor; cbn; auto. intros t0. unfold upd. destruct (Nat.eqb_spec t0 t); [|apply A].
+  subst. specialize (A t). rewrite Ew in A. destruct (u_pc s t); cbn in *; auto.
+  all: destruct A as [A _]; split; [discriminate|]; intros _; apply expired_of_le; rewrite <- (A eq_refl); apply Z.leb_le; exact El.
+Qed.
+
+Lemma UT_tick s d : UT s -> UT (set_u_now s (u_now s + Z.of_nat d)).
+Proof.
+  intros [A B]. constructor; cbn; auto. intros t. specialize (A t).
+  destruct (u_pc s t); cbn in *; auto.
+  all: destruct A as [A1 A2]; split; auto; intros X; eapply expired_mono; [|apply A2; exact X]; lia.
+Qed.
+
+Theorem UT_reach fx progs now0 s : ureach fx progs now0 s -> UT s.
+Proof.
+  induction 1 as [|s l s' R IH H].
+  - constructor; cbn; auto.
+  - destruct l as [t|t|d]; cbn in H.
+    + eapply UT_ustep; eauto.
+    + eapply UT_utimer; eauto.
+    + inversion H; subst. apply UT_tick. exact IH.
+Qed.
+
+(* send / recv on the unbuffered channel (as it is and repaired) report a timeout only when the call's Timeout has
+   expired: e_now = photon::now at the return, e_exp = the expiration computed at the call *)
+Theorem unbuf_timeout_reason fx progs now0 s e :
+  ureach fx progs now0 s -> In e (u_log s) -> e_r e = RTimeout -> expired (e_now e) (e_exp e) = true.
+Proof.
+  intros R Hin Hr. destruct (UT_reach _ _ _ _ R) as [_ B]. rewrite Forall_forall in B. exact (B _ Hin Hr).
+Qed.
+
+(* ---------------------------------------------------------------- buffered ------------------ *)
+Lemma timeout_of_le now d : timeout_of now d <= MAX64.
+Proof. unfold timeout_of, sat_add. destruct (d =? 0); [unfold MAX64; lia|]. destruct (MAX64 <? now + d) eqn:E; [lia|]. apply Z.ltb_ge in E. lia. Qed.
+
+Lemma rewait_ok now e : e <= MAX64 -> rewait_exp now e = e \/ expired now e = true.
+Proof.
+  intros He. unfold rewait_exp, timeout_of, sat_sub, sat_add.
+  destruct (e <? now) eqn:E1.
+  - right. apply expired_of_le. apply Z.ltb_lt in E1. lia.
+  - apply Z.ltb_ge in E1. destruct (e - now =? 0) eqn:E2.
+    + right. apply expired_of_le. apply Z.eqb_eq in E2. lia.
+    + left. replace (now + (e - now)) with e by lia. destruct (MAX64 <? e) eqn:E3; [apply Z.ltb_lt in E3; lia|reflexivity].
+Qed.
+
+Definition mode_le (m : mode) : Prop := match m with MTry => True | MBlock e => e <= MAX64 end.
+Definition bpc_ok (p : bpc) (w : wstate) (dl now : Z) : Prop :=
+  match p with
+  | BS_slp _ e | BR_slp e => e <= MAX64 /\ (dl = e \/ expired now e = true) /\ (w = Woken true -> expired now e = true)
+  | BS_unreg _ e true | BR_unreg e true => expired now e = true
+  | BS_cl _ m | BS_rt _ m | BS_rh _ m _ | BS_push _ m | BS_pub _ m | BS_lrw _ m | BS_sig _ m | BR_pop m | BR_lsw m _ | BR_sig m _ => mode_le m
+  | BS_exp _ e | BS_reg _ e | BS_wait _ e | BS_unreg _ e false | BS_rc _ e | BS_rct _ e | BS_rch _ e _
+  | BR_cl e _ | BR_exp e | BR_reg e | BR_wait e | BR_unreg e false | BR_rc e | BR_rct e | BR_rch e _ => e <= MAX64
+  | _ => True
+  end.
+Record BT (s : bst) : Prop := mkBT {
+  bt_thr : forall t, bpc_ok (b_pc s t) (b_w s t) (b_dl s t) (b_now s);
+  bt_log : Forall ev_time_ok (b_log s)
+}.
+
+Lemma bpc_ok_woken p w dl now : bpc_ok p w dl now -> bpc_ok p (Woken false) dl now.
+Proof. destruct p; cbn; auto; try (destruct to; auto); intros (A & B & _); repeat split; auto; discriminate. Qed.
+
+Definition bwakes_only (f : bst -> bst) : Prop :=
+  forall s, b_pc (f s) = b_pc s /\ b_dl (f s) = b_dl s /\ b_now (f s) = b_now s /\ b_log (f s) = b_log s /\
+            forall t, b_w (f s) t = b_w s t \/ b_w (f s) t = Woken false.
+Lemma bwo_wake_list l : bwakes_only (fun s => bwake_list s l).
+Proof.
+  induction l as [|h r IH]; intros s; cbn; [repeat split; auto|].
+  destruct (IH (bwake1 s h)) as (A & B & C & D & E). rewrite A, B, C, D. cbn. repeat split; auto.
+  intros t. destruct (E t) as [X|X]; rewrite X; cbn; auto. unfold upd. destruct (Nat.eqb t h); auto.
+Qed.
+Lemma bwo_put_sem x m : bwakes_only (fun s => put_sem s x m).
+Proof. intros s. destruct x; cbn; repeat split; auto. Qed.
+Lemma bwo_sem_signal x n : bwakes_only (fun s => sem_signal s x n).
+Proof.
+  intros s. unfold sem_signal. destruct (resume_n _ _) as [wok rest].
+  destruct (bwo_wake_list wok (put_sem s x (mkSem (sm_cnt (get_sem s x) + n) rest))) as (A & B & C & D & E).
+  destruct (bwo_put_sem x (mkSem (sm_cnt (get_sem s x) + n) rest) s) as (A' & B' & C' & D' & E').
+  rewrite A, B, C, D, A', B', C', D'. repeat split; auto.
+  intros t. destruct (E t) as [X|X]; rewrite X; auto.
+Qed.
+Lemma bwo_sem_after_timeout x : bwakes_only (fun s => sem_after_timeout s x).
+Proof.
+  intros s. unfold sem_after_timeout. destruct (0 <? _); [|repeat split; auto].
+  destruct (resume_n _ _) as [wok rest].
+  destruct (bwo_wake_list wok (put_sem s x (mkSem (sm_cnt (get_sem s x)) rest))) as (A & B & C & D & E).
+  destruct (bwo_put_sem x (mkSem (sm_cnt (get_sem s x)) rest) s) as (A' & B' & C' & D' & E').
+  rewrite A, B, C, D, A', B', C', D'. repeat split; auto.
+  intros t. destruct (E t) as [X|X]; rewrite X; auto.
+Qed.
+Lemma BT_wakes f s : bwakes_only f -> BT s -> BT (f s).
+Proof.
+  intros W [A B]. destruct (W s) as (P & D & N & L & Ww). constructor.
+  - intros t. rewrite P, D, N. destruct (Ww t) as [E|E]; rewrite E; [apply A|eapply bpc_ok_woken; apply A].
+  - rewrite L. exact B.
+Qed.
+Lemma sem_try_wo s x s1 : sem_try s x = Some s1 -> BT s -> BT s1.
+Proof.
+  unfold sem_try. destruct (1 <=? _); intros H; inversion H. apply (BT_wakes (fun s => put_sem s x _)). apply bwo_put_sem.
+Qed.
+
+Lemma BT_upd s0 s' t :
+  BT s0 -> b_now s' = b_now s0 ->
+  (forall t0, t0 <> t -> b_pc s' t0 = b_pc s0 t0 /\ b_w s' t0 = b_w s0 t0 /\ b_dl s' t0 = b_dl s0 t0) ->
+  bpc_ok (b_pc s' t) (b_w s' t) (b_dl s' t) (b_now s0) ->
+  Forall ev_time_ok (b_log s') -> BT s'.
+Proof.
+  intros [A B] N O T L. constructor; auto. intros t0. rewrite N. destruct (Nat.eq_dec t0 t) as [->|Ne]; auto.
+  destruct (O _ Ne) as (P & W & D). rewrite P, W, D. apply A.
+Qed.
+
+Ltac bframe := intros [A B]; constructor; cbn; auto.
+Lemma BT_sw s x : BT s -> BT (set_b_sw s x). Proof. bframe. Qed.
+Lemma BT_rw s x : BT s -> BT (set_b_rw s x). Proof. bframe. Qed.
+Lemma BT_closed s x : BT s -> BT (set_b_closed s x). Proof. bframe. Qed.
+Lemma BT_cnt s x : BT s -> BT (set_b_cnt s x). Proof. bframe. Qed.
+Lemma BT_q s x : BT s -> BT (set_b_q s x). Proof. bframe. Qed.
+Lemma BT_head s x : BT s -> BT (set_b_head s x). Proof. bframe. Qed.
+Lemma BT_pushed s x : BT s -> BT (set_b_pushed s x). Proof. bframe. Qed.
+Lemma BT_popped s x : BT s -> BT (set_b_popped s x). Proof. bframe. Qed.
+Lemma BT_setrun s t : BT s -> BT (set_b_w s (upd (b_w s) t Run)).
+Proof.
+  intros [A B]. constructor; cbn; auto. intros t0. unfold upd. destruct (Nat.eqb_spec t0 t); [|apply A].
+  specialize (A t0). destruct (b_pc s t0); cbn in *; auto; try (destruct to; auto); destruct A as (X & Y & _); repeat split; auto; discriminate.
+Qed.
+
+Ltac bt_inner :=
+  repeat first
+    [ assumption
+    | apply BT_sw | apply BT_rw | apply BT_closed | apply BT_cnt | apply BT_q | apply BT_head | apply BT_pushed | apply BT_popped
+    | apply BT_setrun
+    | apply (BT_wakes (fun s => sem_signal s _ _)); [apply bwo_sem_signal|]
+    | apply (BT_wakes (fun s => sem_after_timeout s _)); [apply bwo_sem_after_timeout|]
+    | match goal with E : sem_try _ _ = Some ?b |- BT ?b => eapply sem_try_wo; [exact E|] end ].
+
+Ltac bt_other :=
+  let t0 := fresh "t0" in let Ne := fresh "Ne" in
+  intros t0 Ne; unfold sem_sleep, put_sem; cbn;
+  repeat match goal with |- context [match ?x with SendSem => _ | RecvSem => _ end] => destruct x; cbn end;
+  unfold upd; destruct (Nat.eqb_spec t0 _); [contradiction|auto].
+
+Lemma BT_bstep fx mcap s t s' : BT s -> bstep fx mcap s t = Some s' -> BT s'.
+Proof.
+  intros U H. pose proof (bt_thr _ U t) as Ht. unfold bstep in H.
+  destruct (b_w s t) as [| |b] eqn:Ew; [|discriminate|].
+  all: destruct (b_pc s t) eqn:Epc.
+  all: try (destruct (b_prog s t) as [|[] ?]; [discriminate|..]).
+  all: repeat match type of H with
+       | context [if ?b then _ else _] => destruct b eqn:?
+       | context [match ?m with MTry => _ | MBlock _ => _ end] => destruct m
+       | context [match sem_try ?a ?b with _ => _ end] => destruct (sem_try a b) eqn:?
+       | context [match b_q ?s with _ => _ end] => destruct (b_q s) as [|[? []] ?] eqn:?
+       end.
+  all: inversion H; subst; clear H; auto.
+  all: cbn in Ht.
+  all: try match goal with
+       | |- BT (bfinish ?x _ _ _ _ _ _) => apply (BT_upd x _ t); [bt_inner | reflexivity | bt_other | cbn; rewrite upd_same; exact I | ]
+       | |- BT (bgoto ?x _ _) => apply (BT_upd x _ t); [bt_inner | reflexivity | bt_other | | ]
+       | |- BT (sem_sleep ?x ?w _ _ _) => apply (BT_upd x _ t); [bt_inner | destruct w; reflexivity | bt_other | | ]
+       end.
+  all: idtac "REM". Show.
+Abort.
